@@ -12,7 +12,7 @@ from typing import Any
 from .loader import AnalysisError, Repo, module_of, qualname_of, unparse
 
 VERIF = Path(__file__).resolve().parent.parent
-EVIDENCE_DIR = VERIF / "evidence"
+EVIDENCE_DIR = Path(os.environ.get("VERIF_EVIDENCE_DIR") or VERIF / "evidence")
 KNOWN_FILE = VERIF / "known_findings.json"
 
 
